@@ -559,7 +559,7 @@ update_from_seq(PyObject *map, PyObject *seq)
 
     err = 0;
 err:
-    Py_DECREF(iter);
+    Py_XDECREF(iter);       /* NULL if PyObject_GetIter() failed */
     Py_DECREF(seq);
     return err;
 }
